@@ -43,6 +43,20 @@ func (in *inst) record(e ast.Expr, write bool, out *[]acc) {
 	if in.syncType(tv.Type) {
 		return
 	}
+	// an expression that mentions a local the statement itself declares (`switch p := i*c + j; table[p] {`)
+	// cannot be evaluated where the hooks go
+	late := false
+	ast.Inspect(e, func(n ast.Node) bool {
+		if id, ok := n.(*ast.Ident); ok && in.hookPos.IsValid() {
+			if v, ok := in.info.Uses[id].(*types.Var); ok && !v.IsField() && in.pkg != nil && v.Parent() != in.pkg.Scope() && v.Parent() != types.Universe && v.Pkg() == in.pkg && v.Pos() >= in.hookPos {
+				late = true
+			}
+		}
+		return !late
+	})
+	if late {
+		return
+	}
 	*out = append(*out, acc{e, write})
 }
 
